@@ -8,7 +8,7 @@ S=${TMPDIR:-/tmp}/verif-tryall   # fixed path: the scratch copy's cargo target d
 exec 9>/tmp/verif-tryall.lock; flock 9
 mkdir -p $S && rsync -a --delete --exclude target --exclude .git /repo/ $S/repo/
 ( cd $S/repo && patch -p1 --fuzz=3 -s -i "$P" ) || { echo "patch does not apply"; rm -rf $S; exit 2; }
-cd /verif
+cd ${VERIF_DIR:-/verif}
 ANY=0
 for p in $PROPS; do
   [ -f rules/$(echo $p | tr A-Z a-z).py ] || continue
